@@ -5,6 +5,7 @@ import Verif.Proofs.SvgGeom
 import Verif.Proofs.SvgLex
 import Verif.Proofs.SvgParse
 import Verif.Proofs.SvgModel
+import Verif.Proofs.SvgInduct
 /-!
 # C05 — SVG path minification preserves the absolute segments
 
@@ -13,7 +14,7 @@ guards: `Verif.Spec.SvgHazard`; model of `/repo/svg/pathdata.go`: `Verif.Model.S
 -/
 namespace Verif.Props.C05
 open Verif.Spec.SvgPath Verif.Spec.SvgHazard Verif.Model.SvgPath Verif.Proofs.SvgGeom
-open Verif.Proofs.SvgLex Verif.Proofs.SvgParse Verif.Proofs.SvgModel
+open Verif.Proofs.SvgLex Verif.Proofs.SvgParse Verif.Proofs.SvgModel Verif.Proofs.SvgInduct Verif.Model.SvgGuard
 
 /-! ## path_lex_roundtrip: separator elision never merges or splits tokens
 
@@ -66,30 +67,31 @@ example : renderGroups [⟨true, .M, false, [.num "10".toList, .num "-.5".toList
     = "M10-.5.5.0a1e2 1 0 011 1e3".toList := by decide
 
 /-- **the output of the model of `ShortenPathData` is valid path data, for every input**: whenever the
-    scanner finds a command (`scan d = some is`; otherwise the input is returned unchanged) the output
+    scanner finds a command and no bad format (`scan d = some r`, `r.tail = []`; without a command the input is
+    returned unchanged, after a bad format the rest is appended verbatim) the output
     lexes and parses, and the parsed commands are exactly the groups `copyInstruction` chose
     (rewritten command, absolute or relative alternative) — no token is merged, split or re-attributed to
     another command by letter omission, separator elision, compact flags, `.0` or `e2`.
     Hypothesis: the numbers that were printed have the `minify.Number` output shape (C08.5; the harness
     checks `goodNum` on every output of the real function).  No validity assumption on `d`. -/
-theorem shorten_output_parses (P : NumPr) (d : List Char) (is : List Instr)
-    (hscan : scan d = some is) (hlen : d.length ≤ maxLen)
-    (hgood : ∀ g ∈ groupsOfInstrs P is, ∀ s, PItem.num s ∈ g.items → goodNum s = true) :
-    parse (shortenWith P d) = some (groupsCmds {} (groupsOfInstrs P is)) := by
+theorem shorten_output_parses (P : NumPr) (d : List Char) (r : ScanRes)
+    (hscan : scan d = some r) (htail : r.tail = []) (hlen : d.length ≤ maxLen)
+    (hgood : ∀ g ∈ groupsOfInstrs P r.instrs r.lastNext, ∀ s, PItem.num s ∈ g.items → goodNum s = true) :
+    parse (shortenWith P d) = some (groupsCmds {} (groupsOfInstrs P r.instrs r.lastNext)) := by
   have hl : ¬ maxLen < d.length := by omega
-  simp only [shortenWith, hl, if_false, hscan]
+  simp only [shortenWith, hl, if_false, hscan, htail, List.append_nil]
   apply path_parse_roundtrip
   intro g hg
-  have h := groupsOfInstrs_wf P is g hg
+  have h := groupsOfInstrs_wf P r.instrs r.lastNext g hg
   exact ⟨h.len, hgood g hg, h.ok, h.force⟩
 
 /-- the same for any number printers that always produce the `minify.Number` shape -/
 theorem shorten_output_parses_of_contract (P : NumPr) (hc : ∀ s, goodNum (P.cur s) = true) (ha : ∀ v, goodNum (P.alt v) = true)
-    (d : List Char) (is : List Instr) (hscan : scan d = some is) (hlen : d.length ≤ maxLen) :
-    parse (shortenWith P d) = some (groupsCmds {} (groupsOfInstrs P is)) := by
-  apply shorten_output_parses P d is hscan hlen
+    (d : List Char) (r : ScanRes) (hscan : scan d = some r) (htail : r.tail = []) (hlen : d.length ≤ maxLen) :
+    parse (shortenWith P d) = some (groupsCmds {} (groupsOfInstrs P r.instrs r.lastNext)) := by
+  apply shorten_output_parses P d r hscan htail hlen
   intro g hg s hs
-  exact printed_good P hc ha is g hg s hs
+  exact printed_good P hc ha r.instrs r.lastNext g hg s hs
 
 example : scan "M10 10L20 10 20 10C1 2 3 4 5 6".toList ≠ none := by decide
 
@@ -180,63 +182,80 @@ theorem copy_geometry_implicit_lineto (rel : Bool) (a b c d : List Char) :
 def path_geometry_full : Prop :=
   ∀ d : List Char, validPath d = true → holds d (shorten d) = true
 
-/-- number printers that keep the exact value and the `minify.Number` shape (C08.1 + C08.5) -/
-def NumExact (P : NumPr) : Prop :=
-  (∀ s, goodNum (P.cur s) = true ∧ numVal (P.cur s) = numVal s) ∧
-  (∀ v, goodNum (P.alt v) = true ∧ numVal (P.alt v) = v)
-
-/-- **target, not yet proved** (kept visible): the guarded main statement.  Guards = the triggers of the open
-    known findings K-C05-2…5/10 (`noHazard`: no curve command directly after a closepath, a removed
-    zero-length segment or a degenerate curve of its family; no trailing-dot number).  Proved so far:
-    the output side (`shorten_output_parses`: the output parses to exactly the chosen groups) and every
-    single rewrite (`copy_geometry_*`); open: the induction threading cursor / subpath start / control
-    points through `groupStep`, scanner agreement with `parse`, and the value of the `.0`/`e2` spellings. -/
-def path_geometry_partial_goal : Prop :=
-  ∀ P : NumPr, NumExact P → ∀ d : List Char, validPath d = true → trailDot d = false →
-    noHazard ((parse d).getD []) = true → holds d (shortenWith P d) = true
+/-- **path_geometry, guarded**: for number printers that keep value and shape (`NumExact`: C08.1 + C08.5),
+    every path data string that the scanner reads as the specification does (`scanGuard`) and that has no
+    curve command directly after a closepath, a removed zero-length segment or a degenerate curve of its family
+    (`noHazard`; conservative, these cases are handled by look-ahead since the fixes; `mergeZ` drops a closepath
+    letter repeated directly, which `≃` does not see) is minified to path data
+    denoting the same absolute segments up to `≃`.  Proof: `shorten_output_parses` (the output parses to the
+    chosen groups) and `groups_geometry` (induction over groups and instructions with the cursor, subpath start
+    and control points of model / input / output as invariant; one lemma per rewriting stage). -/
+theorem path_geometry_partial (P : NumPr) (hP : NumExact P) (d : List Char)
+    (hlen : d.length ≤ maxLen) (hg : scanGuard d = true)
+    (hz : noHazard (mergeZ ((parse d).getD [])) = true) :
+    holds d (shortenWith P d) = true := by
+  unfold scanGuard at hg
+  cases hscan : scan d with
+  | none =>
+    -- no command at all: the input is returned unchanged
+    rw [hscan] at hg
+    simp only at hg
+    have hl : ¬ maxLen < d.length := by omega
+    simp only [shortenWith, hl, if_false, hscan, holds]
+    cases hp : parse d with
+    | none => rw [hp] at hg; simp at hg
+    | some ci => simp [equiv]
+  | some r =>
+    rw [hscan] at hg
+    simp only [Bool.and_eq_true, List.isEmpty_iff, List.all_eq_true, beq_iff_eq] at hg
+    obtain ⟨⟨htail, hok⟩, hparse⟩ := hg
+    have hout := shorten_output_parses_of_contract P (fun s => (hP.cur s).1) (fun v => (hP.alt v).1) d r hscan htail hlen
+    cases hp : parse d with
+    | none => rw [hp] at hparse; simp at hparse
+    | some ci =>
+      rw [hp] at hparse hz
+      simp only [Option.map_some, Option.some.injEq, Option.getD_some] at hparse hz
+      rw [hparse] at hz
+      have hgeo := groups_geometry P hP r.instrs r.lastNext (fun i hi => instrOk_of_B i (hok i hi)) hz
+      have hm := mergeZ_equiv ci
+      unfold holds
+      rw [hp, hout]
+      simp only [equiv, beq_iff_eq]
+      rw [← hm, hparse]
+      simp only [norm, hgeo]
 
 /-- the guards are satisfiable by a non-trivial path using every kind of rewrite -/
+example : scanGuard "M0 0L5 0 5 0H6C6 5 10 5 10 0S15-5 15 0Q20 5 25 0T35 0A5 5 0 0140 0z".toList = true := by decide +kernel
+
 example : validPath "M0 0L5 0 5 0H6C6 5 10 5 10 0S15-5 15 0Q20 5 25 0T35 0A5 5 0 0140 0z".toList = true ∧
     trailDot "M0 0L5 0 5 0H6C6 5 10 5 10 0S15-5 15 0Q20 5 25 0T35 0A5 5 0 0140 0z".toList = false ∧
     noHazard ((parse "M0 0L5 0 5 0H6C6 5 10 5 10 0S15-5 15 0Q20 5 25 0T35 0A5 5 0 0140 0z".toList).getD []) = true ∧
     holds "M0 0L5 0 5 0H6C6 5 10 5 10 0S15-5 15 0Q20 5 25 0T35 0A5 5 0 0140 0z".toList
       (shorten "M0 0L5 0 5 0H6C6 5 10 5 10 0S15-5 15 0Q20 5 25 0T35 0A5 5 0 0140 0z".toList) = true := by decide +kernel
 
-/-- the full statement is false for the code as it is: `M0 0Q0 0 5 5T10 0` ↦ `M0 0 5 5l5-5`
-    (known finding K-C05-4; the T, a real curve with control point (10,10), becomes a line) -/
+/-- the full statement for the concrete Go printers is false **because of precision only**: the alternative
+    coordinate is printed with 15 significant digits (`newPrecision`), so an exact sum with more digits is rounded:
+    `M.12 0H1000000000000000.1` ↦ `M.12 0h1e15` (off by 0.02 at 1e15; within the float tolerance 1e-9 of the
+    property, and `float64` cannot represent the input either).  This is the "partial w.r.t. floating point" part. -/
 theorem path_geometry_counterexample : ¬ path_geometry_full := fun h =>
-  absurd (h "M0 0Q0 0 5 5T10 0".toList (by decide +kernel)) (by decide +kernel)
+  absurd (h "M.12 0H1000000000000000.1".toList (by decide +kernel)) (by decide +kernel)
 
-/-- K-C05-2: closepath does not reset the remembered control point -/
-theorem known_closed_witness :
-    validPath "M0 0C1 1 2 2 3 3zC-2 -2 5 5 6 6".toList = true ∧
-    shorten "M0 0C1 1 2 2 3 3zC-2 -2 5 5 6 6".toList = "M0 0C1 1 2 2 3 3zS5 5 6 6".toList ∧
-    holds "M0 0C1 1 2 2 3 3zC-2 -2 5 5 6 6".toList (shorten "M0 0C1 1 2 2 3 3zC-2 -2 5 5 6 6".toList) = false ∧
-    hazards ((parse "M0 0C1 1 2 2 3 3zC-2 -2 5 5 6 6".toList).getD []) = ["closed"] := by decide +kernel
-
-/-- K-C05-3: a removed zero-length segment changes what a following smooth curve reflects -/
-theorem known_dropped_witness :
-    validPath "M0 0C0 5 5 5 5 0L5 0S10 -5 10 0".toList = true ∧
-    shorten "M0 0C0 5 5 5 5 0L5 0S10 -5 10 0".toList = "M0 0C0 5 5 5 5 0s5-5 5 0".toList ∧
-    holds "M0 0C0 5 5 5 5 0L5 0S10 -5 10 0".toList (shorten "M0 0C0 5 5 5 5 0L5 0S10 -5 10 0".toList) = false ∧
-    hazards ((parse "M0 0C0 5 5 5 5 0L5 0S10 -5 10 0".toList).getD []) = ["dropped"] := by decide +kernel
-
-/-- K-C05-4: a degenerate curve replaced by a line forgets its control point -/
-theorem known_degenerate_witness :
-    validPath "M0 0C0 0 0 0 5 5S10 0 10 5".toList = true ∧
-    shorten "M0 0C0 0 0 0 5 5S10 0 10 5".toList = "M0 0 5 5s5-5 5 0".toList ∧
-    holds "M0 0C0 0 0 0 5 5S10 0 10 5".toList (shorten "M0 0C0 0 0 0 5 5S10 0 10 5".toList) = false ∧
-    hazards ((parse "M0 0C0 0 0 0 5 5S10 0 10 5".toList).getD []) = ["degenerate"] := by decide +kernel
-
-/-- K-C05-5: trailing dot followed by an exponent -/
-theorem known_traildot_witness :
-    validPath "M1.e5 2".toList = true ∧ shorten "M1.e5 2".toList = [] ∧
-    holds "M1.e5 2".toList (shorten "M1.e5 2".toList) = false ∧ trailDot "M1.e5 2".toList = true := by decide +kernel
-
-/-- the two repaired defects stay repaired in the model (F02, F03) and satisfy the property -/
+/-- the repaired defects stay repaired in the model and satisfy the property (F02, F03 and the former
+    known findings K-C05-2, 3, 4, 5, 10) -/
 theorem fixed_regressions :
     shorten "M2 2Z L3 3".toList = "M2 2zL3 3".toList ∧ holds "M2 2Z L3 3".toList (shorten "M2 2Z L3 3".toList) = true ∧
     shorten "M1e100 5e-100L1 2".toList = "M1e100 5e-100 1 2".toList ∧
-    holds "M1e100 5e-100L1 2".toList (shorten "M1e100 5e-100L1 2".toList) = true := by decide +kernel
+    holds "M1e100 5e-100L1 2".toList (shorten "M1e100 5e-100L1 2".toList) = true ∧
+    shorten "M0 0C1 1 2 2 3 3zC-2 -2 5 5 6 6".toList = "M0 0C1 1 2 2 3 3zC-2-2 5 5 6 6".toList ∧
+    holds "M0 0C1 1 2 2 3 3zC-2 -2 5 5 6 6".toList (shorten "M0 0C1 1 2 2 3 3zC-2 -2 5 5 6 6".toList) = true ∧
+    shorten "M0 0C0 5 5 5 5 0L5 0S10 -5 10 0".toList = "M0 0C0 5 5 5 5 0V0s5-5 5 0".toList ∧
+    holds "M0 0C0 5 5 5 5 0L5 0S10 -5 10 0".toList (shorten "M0 0C0 5 5 5 5 0L5 0S10 -5 10 0".toList) = true ∧
+    shorten "M0 0Q0 0 5 5T10 0".toList = "M0 0T5 5t5-5".toList ∧
+    holds "M0 0Q0 0 5 5T10 0".toList (shorten "M0 0Q0 0 5 5T10 0".toList) = true ∧
+    shorten "M0 0C0 0 0 0 5 5S10 0 10 5".toList = "M0 0S0 0 5 5s5-5 5 0".toList ∧
+    holds "M0 0C0 0 0 0 5 5S10 0 10 5".toList (shorten "M0 0C0 0 0 0 5 5S10 0 10 5".toList) = true ∧
+    shorten "M1.e5 2".toList = "M1.e5 2".toList ∧
+    shorten "M0 0A5 3 50. 1 1 4 4V9".toList = "M0 0A5 3 50. 1 1 4 4V9".toList ∧
+    shorten "M 10 10 L 20 20 A 1 1 0 2".toList = "M10 10 20 20A 1 1 0 2".toList := by decide +kernel
 
 end Verif.Props.C05
